@@ -8,8 +8,10 @@ import (
 	"os"
 	"path/filepath"
 	"sort"
+	"strconv"
 	"sync"
 	"time"
+	"unicode/utf8"
 )
 
 func init() { register("C14", checkC14) }
@@ -24,6 +26,13 @@ func init() { register("C14", checkC14) }
 // program, selectors and bytes and selects the row of the model's table.
 // On top: differential pairs between binary runs (-f / inline, stdin / file,
 // -r E / BEGINFILE { $ = E }, file and selector order).
+//
+// MC_CliBytes (TLC) adds the texts the command line carries: every byte
+// sequence up to a bound over the bytes a front end might treat specially x
+// every channel (program text in a string / regex literal / between tokens /
+// in a comment, selector, file name, input bytes, document strings and keys)
+// x the command-line shapes of that channel.  Each is rendered to a triple
+// and goes through the same comparisons: the wrapper must be a pipe.
 
 type c14Cfg struct {
 	ProgVia string `json:"progVia"`
@@ -60,6 +69,7 @@ type c14Prog struct {
 type c14Input struct {
 	Name   string
 	Docs   [2]string
+	Names  [2]string // file names of the two documents ("" = in<i>.json)
 	Sels   [2]string
 	Single bool // every file holds exactly one JSON value
 	BadSel bool // the first selector is not a valid expression: the library refuses it
@@ -115,11 +125,14 @@ type c14Run struct {
 	Key    string // identifies (cfg, triple, variant)
 	Cfg    c14Cfg
 	T      *c14Triple
-	Prog   string   // program text actually used
-	Sels   []string // selectors actually used
-	Order  []int    // which docs, in which order (indices into T.I.Docs)
-	Dir    bool     // unreadable realised as a directory
-	Stale  bool     // the -o FILE exists before the run, with content longer than any document written here
+	Prog   string             // program text actually used
+	Sels   []string           // selectors actually used
+	Order  []int              // which docs, in which order (indices into T.I.Docs)
+	Dir    bool               // unreadable realised as a directory
+	Stale  bool               // the -o FILE exists before the run, with content longer than any document written here
+	Rows   map[string]*c14Vec // the model's rows for this run when they do not come from MC_Cli's table
+	Chan   string             // MC_CliBytes: the channel that holds the text
+	Text   []byte             // MC_CliBytes: the text
 	Args   []string
 	Res    BinResult
 	OutDoc []byte // content of the -o FILE, nil if absent
@@ -127,6 +140,82 @@ type c14Run struct {
 }
 
 func c14Key(k c14Cfg) string { b, _ := json.Marshal(k); return string(b) }
+
+// c14FileName is the name of the i-th document of an input set on disk and for the library.
+func c14FileName(in *c14Input, i int) string {
+	if in.Names[i] != "" {
+		return in.Names[i]
+	}
+	return fmt.Sprintf("in%d.json", i)
+}
+
+// c14Bytes decodes a text of the specification (JqUtil bytes: one character, or a two-digit hex name).
+func c14Bytes(syms []string) []byte {
+	var out []byte
+	for _, s := range syms {
+		if len(s) == 2 {
+			n, err := strconv.ParseUint(s, 16, 8)
+			if err != nil {
+				infra("C14: bad byte name %q", s)
+			}
+			out = append(out, byte(n))
+		} else if len(s) == 1 {
+			out = append(out, s[0])
+		} else {
+			infra("C14: bad byte %q", s)
+		}
+	}
+	return out
+}
+
+// c14TextTriple renders (channel, text) to a program, input documents, a selector and file names.
+// The oracle is the library on exactly these, so the text may well make the program or the input
+// malformed: then the binary has to fail the way the library does.
+func c14TextTriple(ch string, text []byte) *c14Triple {
+	t := string(text)
+	doc := func(v any) string {
+		b, err := json.Marshal(v)
+		if err != nil {
+			infra("C14: marshal: %v", err)
+		}
+		return string(b)
+	}
+	plain := [2]string{`[{"x": "a b"}, {"x": "c"}]`, `{"x": "second"}`}
+	tr := &c14Triple{I: c14Input{Name: "text:" + ch, Docs: plain, Sels: [2]string{"$", "$"}}}
+	switch ch {
+	case "prog-str":
+		tr.P = c14Prog{Src: `{ s = "` + t + `"; print s.length(), s, $.x; $.s = s }`}
+	case "prog-re":
+		tr.I.Docs[0] = doc([]any{map[string]any{"x": "a" + t + "b"}, map[string]any{"x": "ab"}, map[string]any{"x": "a\nb"}})
+		tr.P = c14Prog{Src: `$.x ~ /a` + t + `b/ { print "match", $.x; $.m = true }`}
+	case "prog-ws":
+		tr.P = c14Prog{Src: `{ print $.x }` + t + `END { print "end" }`}
+	case "prog-cmt":
+		tr.P = c14Prog{Src: `{ print $.x } # ` + t + "\nEND { print \"end\" }"}
+	case "input-str":
+		tr.I.Docs[0] = `{"x": "` + t + `"}` + "\n" + `{"x": "after"}`
+		tr.P = c14Prog{Src: `{ print $.x; $.seen = $.x }`}
+	case "input-ws":
+		tr.I.Docs[0] = `{"x": 1}` + t + `{"x": 2}`
+		tr.P = c14Prog{Src: `{ print $.x; $.seen = true }`}
+	case "doc-val":
+		tr.I.Docs[0] = doc([]any{map[string]any{"x": t}, map[string]any{"x": "u" + t + t}})
+		tr.P = c14Prog{Src: `{ print $.x; $.y = $.x + "!" }`}
+	case "doc-key":
+		tr.I.Docs[0] = doc(map[string]any{"k" + t: map[string]any{t + "z": 1}})
+		tr.P = c14Prog{Src: `{ print $; $.seen = true }`}
+	case "sel":
+		tr.I.Docs[0] = doc(map[string]any{t: []any{map[string]any{"x": 1}, map[string]any{"x": 2}}, "other": []any{}})
+		tr.I.Sels[0] = `$["` + t + `"]`
+		tr.P = c14Prog{Src: `{ print $.x; $.seen = true }`}
+	case "fname":
+		tr.I.Names[0] = "in" + t + ".json"
+		tr.P = c14Prog{Src: `{ print $file, $.x }`, UsesFile: true}
+	default:
+		infra("C14: unknown channel %q", ch)
+	}
+	return tr
+}
 
 // what an -o FILE may hold before the run: longer than any document written by the pool
 var c14StaleDoc = bytes.Repeat([]byte("{\"stale\": [0, 1, 2, 3, 4, 5, 6, 7, 8, 9]}\n"), 100)
@@ -169,7 +258,7 @@ func c14Exec(c *Ctx, base string, n int, r *c14Run) {
 		stdin = []byte(r.T.I.Docs[r.Order[0]])
 	}
 	for i := 0; i < k.NFiles; i++ {
-		name := fmt.Sprintf("in%d.json", r.Order[i])
+		name := c14FileName(&r.T.I, r.Order[i])
 		if k.BadAt == i+1 {
 			switch {
 			case k.BadKind == "missing":
@@ -211,7 +300,7 @@ func c14LibJob(r *c14Run, failAt int) Job {
 	}
 	for i := 0; i < r.Cfg.NFiles; i++ {
 		data := []byte(r.T.I.Docs[r.Order[i]])
-		name := fmt.Sprintf("in%d.json", r.Order[i])
+		name := c14FileName(&r.T.I, r.Order[i])
 		if failAt == i+1 {
 			j.IO = true
 			j.Files = append(j.Files, FileIn{Name: "unreadable.d", Fault: "ioerr"})
@@ -229,6 +318,10 @@ func c14Rep(r *c14Run) map[string]any {
 	if r.OutDoc != nil {
 		m["out_file"] = string(r.OutDoc)
 	}
+	if r.Chan != "" {
+		m["text_channel"] = r.Chan
+		m["text_bytes"] = fmt.Sprintf("%q", r.Text)
+	}
 	if r.Stale {
 		m["out_file_before_run"] = fmt.Sprintf("%d bytes of other content", len(c14StaleDoc))
 	}
@@ -242,6 +335,7 @@ func checkC14(c *Ctx) {
 	c.Assume("stdin vs named file only for programs that do not print $file; -r E vs BEGINFILE { $ = E } only for one selector and programs that do not inspect $ in BEGINFILE/ENDFILE")
 	c.Assume("file / selector order: output blocks are compared for programs whose output for (A, B) is the output for A followed by that for B (no BEGIN/END, no state carried over), on runs that succeed; selector order on inputs with one value per file")
 	c.Assume("an unreadable input is a mode-000 file (inconclusive when running as root makes it readable) and a directory given as input file; the directory opens and fails on the first read, so it counts only if the run gets as far as reading it (oracle: the library with a reader failing at that position; an exit before that ends the run successfully)")
+	c.Assume("texts: a text placed in the program, a selector, a file name or the input may make it malformed; then the binary must fail as the library does on the same text (error messages are not compared); NUL and / are not among the bytes (not expressible in an argument / a file name); selectors and file names that are not valid UTF-8 are skipped (the harness hands them to the library worker as JSON strings)")
 	c.Assume("-dbg-ast, -dbg-lex, -profile, -version are not exercised; stdin is always a pipe")
 	pool := c.Pool()
 	rng := rand.New(rand.NewSource(c.Seed*104729 + 5))
@@ -294,8 +388,9 @@ func checkC14(c *Ctx) {
 		nTriples = len(triples)
 	}
 	sel := triples[:nTriples]
-	c.Set("bounds", map[string]any{"command_line_shapes": 243, "triples": nTriples, "triples_for_fault_shapes": nFaultTriples,
-		"programs": len(c14Progs), "input_sets": len(c14Inputs)})
+	bounds := map[string]any{"command_line_shapes": 243, "triples": nTriples, "triples_for_fault_shapes": nFaultTriples,
+		"programs": len(c14Progs), "input_sets": len(c14Inputs)}
+	c.Set("bounds", bounds)
 
 	// ---- plan the binary runs
 	var keys []string
@@ -347,6 +442,75 @@ func checkC14(c *Ctx) {
 			}
 		}
 	}
+
+	// ---- the texts: MC_CliBytes
+	maxLen := 2
+	if c.Thorough() {
+		maxLen = 3
+	}
+	type c14TextKey struct{ ch, text string }
+	textRows := map[string]map[string]*c14Vec{} // run key -> library result -> row
+	textRuns := map[c14TextKey][]*c14Run{}
+	var textOrder []c14TextKey
+	nOpaque := 0
+	c.TLC(TLCOpt{Module: "MC_CliBytes", Workers: 8, Heap: "4g",
+		Cfg: cfgText("SPECIFICATION Spec", fmt.Sprintf("CONSTANT MaxLen = %d", maxLen), "INVARIANT CliTypeOK", "INVARIANT StatusIffOk", "INVARIANT DiagIffFail",
+			"INVARIANT StdoutShape", "INVARIANT CallOrder", "INVARIANT OpenOrder", "INVARIANT Transparent", "INVARIANT AgreesWithResult",
+			"INVARIANT Laws", "INVARIANT Complete", "INVARIANT Vec"),
+		OnVec: func(raw []byte) {
+			v := &struct {
+				c14Vec
+				Chan    string   `json:"chan"`
+				Bytes   []string `json:"bytes"`
+				LibText []string `json:"libtext"`
+			}{}
+			VecDecode(raw, v)
+			text := c14Bytes(v.Bytes)
+			if v.Evaluated && !bytes.Equal(c14Bytes(v.LibText), text) {
+				nOpaque++ // the model itself says the library gets another text: cannot happen while Transparent holds
+			}
+			key := fmt.Sprintf("text|%s|%x|%s", v.Chan, text, c14Key(v.Cfg))
+			if textRows[key] == nil {
+				textRows[key] = map[string]*c14Vec{}
+				tk := c14TextKey{v.Chan, string(text)}
+				if textRuns[tk] == nil {
+					textOrder = append(textOrder, tk)
+				}
+				textRuns[tk] = append(textRuns[tk], &c14Run{Key: key, Cfg: v.Cfg, Chan: v.Chan, Text: text, Order: []int{0, 1}, Rows: textRows[key]})
+			}
+			row := v.c14Vec
+			textRows[key][v.Lib.Outcome+"/"+v.Lib.JSON] = &row
+		}})
+	if nOpaque > 0 {
+		infra("C14: MC_CliBytes emitted %d vectors in which the library is called with another text", nOpaque)
+	}
+	sort.Slice(textOrder, func(i, j int) bool {
+		if textOrder[i].ch != textOrder[j].ch {
+			return textOrder[i].ch < textOrder[j].ch
+		}
+		return textOrder[i].text < textOrder[j].text
+	})
+	bounds["texts"] = fmt.Sprintf("every byte sequence of length <= %d over 13 bytes (%% d CR LF TAB blank \" \\ C3 A9 , - <) x 10 channels x the command-line shapes of the channel", maxLen)
+	c.Set("bounds", bounds)
+	nTextRuns := 0
+	for _, tk := range textOrder {
+		if (tk.ch == "sel" || tk.ch == "fname") && !utf8.ValidString(tk.text) {
+			// selectors and file names reach the library worker as JSON strings, which cannot carry these bytes
+			c.Count("texts_not_expressible_to_the_library_worker", 1)
+			delete(textRuns, tk)
+			continue
+		}
+		t := c14TextTriple(tk.ch, []byte(tk.text))
+		rs := textRuns[tk]
+		sort.Slice(rs, func(i, j int) bool { return rs[i].Key < rs[j].Key })
+		for _, r := range rs {
+			r.T, r.Prog, r.Sels = t, t.P.Src, selsOf(t, r.Cfg.NSel)
+			add(r)
+			nTextRuns++
+		}
+	}
+	c.Count("text_runs", int64(nTextRuns))
+	c.Count("texts", int64(len(textOrder)))
 
 	// every other -o FILE run finds the target already there, with longer content
 	nPath := 0
@@ -441,6 +605,9 @@ func checkC14(c *Ctx) {
 			continue
 		}
 		rows := table[c14Key(r.Cfg)]
+		if r.Rows != nil {
+			rows = r.Rows
+		}
 		var exp *c14Vec
 		var lib *Result
 		// A directory opens but cannot be read: the failure belongs to the evaluation and happens only
@@ -602,6 +769,45 @@ func checkC14(c *Ctx) {
 				s1, s10 := byKey[base+"|s1"], byKey[base+"|s10"]
 				concat("selectors-01", r, s0, s1)
 				concat("selectors-10", s10, s1, s0)
+			}
+		}
+	}
+
+	// the same text in the shapes of its channel: -f vs inline, stdin vs file, -o FILE vs -o -
+	for _, tk := range textOrder {
+		rs := textRuns[tk]
+		find := func(k c14Cfg) *c14Run {
+			for _, r := range rs {
+				if r.Cfg == k {
+					return r
+				}
+			}
+			return nil
+		}
+		for _, r := range rs {
+			if r.Cfg.ProgVia == "file" {
+				k2 := r.Cfg
+				k2.ProgVia = "inline"
+				if o := find(k2); o != nil {
+					same("text-f-inline", r, o, true)
+				}
+			}
+			if r.Cfg.NFiles == 0 && !r.T.P.UsesFile {
+				k2 := r.Cfg
+				k2.NFiles = 1
+				if o := find(k2); o != nil {
+					same("text-stdin-file", r, o, true)
+				}
+			}
+			if r.Cfg.Out == "path" {
+				k2 := r.Cfg
+				k2.Out = "dash"
+				if d := find(k2); d != nil && conclusive(r) && conclusive(d) && r.Res.Exit == 0 && d.Res.Exit == 0 {
+					c.Count("pairs_text-o-path-dash", 1)
+					if r.OutDoc == nil || !bytes.Equal(d.Res.Stdout, append(append([]byte{}, r.Res.Stdout...), r.OutDoc...)) {
+						c.Violation("cli-pair-text-o-path-dash", map[string]any{"path": c14Rep(r), "dash": c14Rep(d)})
+					}
+				}
 			}
 		}
 	}
